@@ -305,6 +305,17 @@ def ili_tsv(ili_file) -> bytes:
     head = [c.upper() if ili_file.get('upper') else c for c in cols]
     if ili_file.get('upper'):
         head[0] = 'ILI'
+    # every column name is spelled in upper OR lower case, each on its own (a table exported
+    # by a spreadsheet: "ili<TAB>STATUS<TAB>definition"); derived from the content, not from
+    # the generator's PRNG, so that universes of earlier seeds stay what they were
+    import zlib
+    mix = zlib.crc32(repr([ili_file['name'], cols, [r.get('ili') for r in ili_file['rows'][:4]]])
+                     .encode('utf-8')) % 8
+    if mix < 3 and len(head) > 1:
+        head = [head[0]] + [c.upper() if (mix + i) % 2 == 0 else c.lower()
+                            for i, c in enumerate(head[1:])]
+        if mix == 2:
+            head[0] = 'ILI' if head[0] == 'ili' else 'ili'
     if extra:
         head.append('comment')
     interior = ili_file.get('interior_columns')     # unknown columns BETWEEN the known ones
